@@ -20,6 +20,13 @@ Definition expected_err (cfg : vcfg) (c : bytes) (t : err) : err :=
   if g_size cfg <? lenN c then ECode (g_code cfg)
   else match t with EEof => ECode (g_code cfg) | _ => t end.
 
+Lemma expected_err_too_long cfg c t : g_size cfg < lenN c -> expected_err cfg c t = ECode (g_code cfg).
+Proof. intros Hl. unfold expected_err. apply N.ltb_lt in Hl. now rewrite Hl. Qed.
+Lemma expected_err_io_first cfg c x : lenN c <= g_size cfg -> expected_err cfg c (ECode x) = ECode x.
+Proof. intros Hl. unfold expected_err. apply N.ltb_ge in Hl. now rewrite Hl. Qed.
+Lemma expected_err_clean_end cfg c : expected_err cfg c EEof = ECode (g_code cfg).
+Proof. unfold expected_err. destruct (g_size cfg <? lenN c); reflexivity. Qed.
+
 Section Vcr2.
   Variable H : bytes -> bytes.
   Variable cfg : vcfg.
